@@ -201,7 +201,7 @@ def random_program(rng, pid, honest):
 
 
 def validate(ctx, trace, tag):
-    r = vlib.tlc("ParentTrace.tla", "ParentTrace.cfg", workers=1, timeout=3000, env={"TRACE": trace},
+    r = vlib.tlc("ParentTrace.tla", "ParentTrace.cfg", workers=1, timeout=12000, env={"TRACE": trace},
                  metadir=os.path.join(ctx.out, "tv-" + tag), heap="8g")
     if r.error or r.violated or r.printed("TOOLERR"):
         open(os.path.join(ctx.out, "tv-%s.log" % tag), "w").write(r.out)
